@@ -20,6 +20,9 @@ class FideFormat(rt.Format):
     binary = True
     fields = ('abstract',)
 
+    writer_cls = FeatureIDEWriter
+    reader_cls = FeatureIDEReader
+
     def write(self, fm, path):
         return FeatureIDEWriter(path, fm).transform()
 
